@@ -70,4 +70,8 @@ OutsideUntouched == \A k \in Idx \ Window : arch[k] = init[k]
 RemoveOnly == (~IsWindow) => arch = init
 \* no rolled content is ever duplicated inside the window
 NoDup == Idle => \A a, b \in Window : (a # b /\ arch[a].k = "file") => arch[a] # arch[b]
+\* (A pattern that is a relative path: the names it denotes are resolved like every relative path, against the working
+\* directory of the moment a file system call is made - the moment of the roll, not of the build.  The working directory
+\* is process state; the replay has runs in a process of their own that build the roller in one directory, change to
+\* another and roll there: the window is where the process is.)
 =============================================================================
